@@ -28,36 +28,42 @@ def run(ctx):
     if ctx.replay:
         h.replay(ctx, "TestReplay$")
         return
-    w = min(ctx.cores, 8)
+    emit_root = os.path.join(ctx.scratch, "emit")
+    J = []  # independent TLC jobs, run concurrently (each is its own JVM)
+
+    def job(f, *a, **kw):
+        J.append(lambda: f(ctx, *a, **kw))
     # ---- 1. the design level: do the validator's guards imply the privilege rules?
     # (TLC's -coverage instrumentation does not terminate on this module - one cost-model node per call path -
     #  so non-vacuity is established from the generator's output instead: h.nonvacuous)
-    h.mc(ctx, "prune-A", "Acl_mc_prune.cfg", SET="A", MaxDepth=1 if thorough else 0, workers=w)
-    h.mc(ctx, "rules-A", "Acl_mc_A.cfg", SET="A", MaxDepth=3 if thorough else 2, workers=w, timeout=3000)
-    h.mc(ctx, "rules-B", "Acl_mc_A.cfg", SET="B", MaxDepth=2 if thorough else 1, workers=w, timeout=3000)
+    job(h.mc, "rules-A", "Acl_mc_A.cfg", SET="A", MaxDepth=3 if thorough else 2, workers=4, timeout=3000)
+    job(h.mc, "prune-A", "Acl_mc_prune.cfg", SET="A", MaxDepth=1 if thorough else 0)
+    job(h.mc, "rules-B", "Acl_mc_A.cfg", SET="B", MaxDepth=2 if thorough else 1, timeout=3000)
+    job(h.mc, "batch-A", "Acl_mc_batch.cfg", SET="A", MaxDepth=1 if thorough else 0, workers=4 if thorough else 2, timeout=3000)
     if thorough:
-        h.mc(ctx, "rules-D", "Acl_mc_A.cfg", SET="D", MaxDepth=4, workers=w, timeout=3000)
-        h.mc(ctx, "batch-B", "Acl_mc_batch.cfg", SET="B", MaxDepth=0, workers=w, timeout=3000)
-    h.mc(ctx, "batch-A", "Acl_mc_batch.cfg", SET="A", MaxDepth=1 if thorough else 0, workers=w, timeout=3000)
+        job(h.mc, "rules-D", "Acl_mc_A.cfg", SET="D", MaxDepth=4, workers=4, timeout=3000)
+        job(h.mc, "batch-B", "Acl_mc_batch.cfg", SET="B", MaxDepth=0, timeout=3000)
     # ---- 2. the validator as it was found: TLC must find each gap; counterexamples go to the real list
     # (the "no permission" guard of the repair subsumes the "join request" guard for every reachable member, so the
     #  removal-request route shows with both guards off, the stale-join-request route with only the second one off)
-    h.asis(ctx, "accept-any-request-kind", ["Rules"], SET="A", MaxDepth=3, FIX_ACCEPT_KIND=False, FIX_ACCEPT_NOPERM=False, workers=w)
-    h.asis(ctx, "guest-may-own", ["Rules"], SET="B", MaxDepth=3, FIX_OWNER_NOT_GUEST=False, workers=w)
-    h.asis(ctx, "accept-stale-request", ["Rules", "OneOwner"], SET="E", MaxDepth=4, FIX_ACCEPT_NOPERM=False, workers=w, timeout=1800)
-    h.replay(ctx, "TestCounterexamples$", VERIF_CEX=os.path.join(ctx.scratch, "cex"))
-    # ---- 3. spec -> code
+    job(h.asis, "accept-any-request-kind", ["Rules"], SET="A", MaxDepth=1, FIX_ACCEPT_KIND=False, FIX_ACCEPT_NOPERM=False)
+    job(h.asis, "guest-may-own", ["Rules"], SET="B", MaxDepth=0, FIX_OWNER_NOT_GUEST=False)
+    job(h.asis, "accept-stale-request", ["Rules", "OneOwner"], SET="E", MaxDepth=3, FIX_ACCEPT_NOPERM=False, timeout=1800)
+    # ---- 3. spec -> code: model states with verdicts
     if thorough:
-        h.emit(ctx, "A", "AclGen.cfg", SET="A", GenDepth=2, FullDepth=1, BatchDepth=1, timeout=3000)
-        h.emit(ctx, "B", "AclGen.cfg", SET="B", GenDepth=1, FullDepth=1, BatchDepth=0, timeout=3000)
-        h.emit(ctx, "A-deep", "AclGen.cfg", SET="A", SimDepth=4, SimSample=8, simulate=40, depth=5, timeout=3000)
-        h.emit(ctx, "B-deep", "AclGen.cfg", SET="B", SimDepth=5, SimSample=8, simulate=40, depth=6, timeout=3000)
+        job(h.emit, "A", "AclGen.cfg", SET="A", GenDepth=2, FullDepth=1, BatchDepth=1, timeout=3000)
+        job(h.emit, "B", "AclGen.cfg", SET="B", GenDepth=1, FullDepth=1, BatchDepth=0, timeout=3000)
+        job(h.emit, "D", "AclGen.cfg", SET="D", GenDepth=2, FullDepth=2, BatchDepth=0, timeout=3000)
+        job(h.emit, "A-deep", "AclGen.cfg", SET="A", SimDepth=4, SimSample=8, simulate=40, depth=5, timeout=3000)
+        job(h.emit, "B-deep", "AclGen.cfg", SET="B", SimDepth=5, SimSample=8, simulate=40, depth=6, timeout=3000)
     else:
-        h.emit(ctx, "A", "AclGen.cfg", SET="A", GenDepth=1, FullDepth=0, BatchDepth=0)
-        h.emit(ctx, "D", "AclGen.cfg", SET="D", GenDepth=2, FullDepth=2, BatchDepth=0)
-        h.emit(ctx, "B-deep", "AclGen.cfg", SET="B", SimDepth=4, SimSample=8, simulate=8, depth=5)
-    h.nonvacuous(ctx, os.path.join(ctx.scratch, "emit"))
-    h.replay(ctx, "TestReplay$", VERIF_BEHAVIOURS=os.path.join(ctx.scratch, "emit"))
+        job(h.emit, "D", "AclGen.cfg", SET="D", GenDepth=2, FullDepth=2, BatchDepth=0)
+        job(h.emit, "A", "AclGen.cfg", SET="A", GenDepth=1, FullDepth=0, BatchDepth=0)
+        job(h.emit, "B-deep", "AclGen.cfg", SET="B", SimDepth=4, SimSample=8, simulate=6, depth=5)
+    h.parallel(ctx, J)
+    h.replay(ctx, "TestCounterexamples$", VERIF_CEX=os.path.join(ctx.scratch, "cex"))
+    h.nonvacuous(ctx, emit_root)
+    h.replay(ctx, "TestReplay$", VERIF_BEHAVIOURS=emit_root)
     ctx.assume("key ciphertexts carried by records are well-formed (they encrypt the then-current read key); "
                "what varies freely is who they are addressed to and every other field")
     ctx.assume("invite and request ids are record ids (hashes): a content cannot name an invite/request created by its own record")
